@@ -77,6 +77,23 @@ SIGNIFICANT_STD = ("::eq", "::ne", "::lt", "::le", "::gt", "::ge", "::cmp", "::s
                    "::start_bound", "::end_bound", "Option::<T>::take", "Option::<T>::filter", "FnMut::call_mut", "::to_vec", "mem::transmute")
 
 
+_FLIP_CMP = {"lt": "gt", "gt": "lt", "le": "ge", "ge": "le"}
+
+
+def _oriented(body, site, name):
+    """`bound > key` is `key < bound`: an ordering comparison whose *second* operand is the entry read through the
+    cursor (and whose first is not) is reported with its operands exchanged, so that a one-sided operand swap in one
+    twin does not look like a different relation"""
+    last = name.rsplit("::", 1)[-1]
+    if last not in _FLIP_CMP:
+        return name
+    from .common import cursor_sources
+    a = body.arg_exprs(site)
+    if len(a) == 2 and cursor_sources(a[1]) and not cursor_sources(a[0]):
+        return name[: -len(last)] + _FLIP_CMP[last]
+    return name
+
+
 PURE_ACCESSORS = ("::start_bound", "::end_bound")
 
 
@@ -132,6 +149,7 @@ def skeleton(body, rename=lambda s: s):
             if local or any(n.endswith(x) for x in SIGNIFICANT_STD):
                 v = verdict_at(body.facts, body, s)
                 consts = tuple(a.get("int") for a in t["args"] if a["k"] == "const" and "int" in a)
+                n = _oriented(body, s, n)
                 out.append((("call", rename(n), consts, v), s))
     # pure accessors evaluated back to back (`let (s, e) = (r.start_bound(), r.end_bound())`) have no order
     pure = lambda it: it[0][0] == "call" and it[0][1].endswith(PURE_ACCESSORS)
